@@ -24,6 +24,7 @@ use crate::sched::{Policy, Sched, SchedStats, Switch, KIND_NAMES};
 pub struct SchedEngine;
 
 pub const REF_KEY: u64 = 0x5EED_0F_7E_F0_0D;
+pub const PROC_REF_KEY: u64 = 0x0DDB_A11_5EED_77;
 
 #[derive(Clone, Debug, PartialEq)]
 pub struct SimThread {
@@ -173,12 +174,12 @@ fn compare(reference: &Obs, obs: &Obs) -> Option<(String, String)> {
     None
 }
 
-fn run_reference(job: &JobSpec) -> Obs {
+fn run_reference(job: &JobSpec, key: u64) -> Obs {
     let j = job.clone();
     std::thread::Builder::new()
         .stack_size(8 << 20)
         .spawn(move || {
-            crate::seams::set_thread_entropy(Some(REF_KEY));
+            crate::seams::set_thread_entropy(Some(key));
             crate::detalloc::set_region(1, 0);
             let r = run_job(&j);
             obs_of(&r, usize::MAX)
@@ -243,7 +244,7 @@ pub fn execute(case: &SchedCase, proc_refs: &[((usize, usize), String, String)])
             let o = match hit {
                 Some(o) => o,
                 None => {
-                    let o = run_reference(j);
+                    let o = run_reference(j, REF_KEY);
                     ref_cache.push((j, o.clone()));
                     o
                 }
@@ -468,7 +469,7 @@ fn gen_template(rng: &mut Rng, density: f64) -> JobSpec {
     let k = rng.range(2, 5) as usize;
     let names = pick_names(rng, k);
     let y = |rng: &mut Rng| yields(rng, density);
-    let which = rng.below(11);
+    let which = rng.below(13);
     let text: String = match which {
         0 => {
             // keywords() of an argument list
@@ -555,6 +556,19 @@ fn gen_template(rng: &mut Rng, density: f64) -> JobSpec {
             // compound units are rendered by multiplying / dividing them
             let u: Vec<String> = names.iter().map(|n| n.replace('_', "-")).collect();
             format!("{}a {{ m: unit(1{} * 1{}); d: inspect(1{} * 1{} / 1{}); s: \"#{{unit(2{} * 3{})}}\"; }}\n", y(rng), u[0], u[1], u[0], u[1], u[u.len() - 1], u[1], u[0])
+        }
+        10 => {
+            // media queries: nested @media rules are merged pairwise, in order
+            let q: Vec<String> = names.iter().map(|n| format!("({}: 1px)", n)).collect();
+            format!("{}@media screen and {}, print and {} {{ @media {}, {} {{ a {{ b: c; }} }} }}\n", y(rng), q[0], q[1], q[q.len() - 1], q[0])
+        }
+        11 => {
+            // nested maps merged deeply; keys keep their first position
+            let a: Vec<String> = names.iter().enumerate().map(|(i, n)| format!("{}: (x: {}, y: {})", n, i, i + 1)).collect();
+            let mut rev = names.clone();
+            rev.reverse();
+            let b: Vec<String> = rev.iter().enumerate().map(|(i, n)| format!("{}: (y: {}, z: {})", n, 10 + i, 20 + i)).collect();
+            format!("@use \"sass:map\";\n{}a {{ m: inspect(map.deep-merge(({}), ({}))); k: map.keys(map.merge(({}), ({}))); }}\n", y(rng), a.join(", "), b.join(", "), a.join(", "), b.join(", "))
         }
         _ => {
             // global variables and functions listed by meta
@@ -700,7 +714,9 @@ fn run_case_forked(case: &SchedCase) -> Result<Value, String> {
                 None => continue,
             };
             match in_child(30_000, move || {
-                let o = run_reference(&job);
+                // another hash key than the in-process references: a process-global hasher state
+                // that is captured once from the first thread to hash then differs between the two
+                let o = run_reference(&job, PROC_REF_KEY);
                 json!({"observable": o.observable, "log": format!("{:?}", o.log)})
             }) {
                 ChildEnd::Done(v) => prefs.push(((t, k), v.get("observable").and_then(|s| s.as_str()).unwrap_or("").to_string(), v.get("log").and_then(|s| s.as_str()).unwrap_or("").to_string())),
@@ -965,7 +981,7 @@ impl Engine for SchedEngine {
         out.into_iter().map(|d| d.to_json()).collect()
     }
     fn rule(&self) -> String {
-        "seeded runs of 1-4 simulated threads x 1-6 jobs each (jobs: suite inputs, order-sensitive templates over a shared identifier pool [keywords(), unknown named arguments, named-argument evaluation order, maps, module members through @forward show/hide, @extend, @use-with, selector functions, mixin defaults, compound units with user-named units], multi-file projects on SimFs, logger scripts; 40% of runs let threads draw from a shared job pool); per run a scheduling policy (serial, random(0.02/0.2/0.5), pct(1/3), latency), per-thread hash key (15% equal to the reference key), heap shift, sim-yield density, H1 on/off; some history jobs fail, are Fs-faulted, or run out of evaluation fuel mid-evaluation (caught panic). 6% of runs are unique-id() runs under adversarial entropy. Every run executes in a process forked for it alone on a deterministic heap. Non-trivial = runs with a context switch inside a compilation or a thread with more than one job; distinct by (case, switch list).".into()
+        "seeded runs of 1-4 simulated threads x 1-6 jobs each (jobs: suite inputs, order-sensitive templates over a shared identifier pool [keywords(), unknown named arguments, named-argument evaluation order, maps, module members through @forward show/hide, @extend, @use-with, selector functions, mixin defaults, compound units with user-named units, nested @media merging, map.deep-merge], multi-file projects on SimFs, logger scripts; 40% of runs let threads draw from a shared job pool); per run a scheduling policy (serial, random(0.02/0.2/0.5), pct(1/3), latency), per-thread hash key (15% equal to the reference key), heap shift, sim-yield density, H1 on/off; some history jobs fail, are Fs-faulted, or run out of evaluation fuel mid-evaluation (caught panic). 6% of runs are unique-id() runs under adversarial entropy. Every run executes in a process forked for it alone on a deterministic heap. Non-trivial = runs with a context switch inside a compilation or a thread with more than one job; distinct by (case, switch list).".into()
     }
     fn assumptions(&self) -> Vec<String> {
         vec![
